@@ -180,4 +180,14 @@ def IntToStr(input_bvv):
 
     :return:                        the string representation of the integer
     """
-    return StringV(str(input_bvv.value))
+    value = input_bvv.value
+    try:
+        return StringV(str(value))
+    except ValueError:
+        # CPython refuses str() of an int with more than 4300 digits: convert in chunks
+        chunk = 10**4000
+        parts = []
+        while value:
+            value, low = divmod(value, chunk)
+            parts.append(low)
+        return StringV(str(parts[-1]) + "".join(str(p).zfill(4000) for p in reversed(parts[:-1])))
